@@ -1,7 +1,15 @@
 import JSL.Lib.StepSpec
+import JSL.Inv.EnvReach
+import JSL.Inv.ObsSpace
 
 /-!
-# C14 — the environment honours the Gymnasium contract (action-space and episode-end part)
+# C14 — the environment honours the Gymnasium contract
+
+Action-space and episode-end part, and – for the `SimpleJssp`-based observation factories – that
+the observation lies in the declared space: `maxOpsPerJob`, `maxOpsPerMachine` and the shapes are
+the model of the declared `gym.spaces.Dict` (compared with the implementation's declared space on
+the `B` line of every scenario; the `in=` flag of every `V` line compares the model's membership
+test with the implementation's).
 -/
 
 namespace JSL
@@ -36,5 +44,33 @@ theorem c14_reset_initial (s0 : State) (r : Rng) (e : EnvState) (mic : List Stat
   obtain ⟨rfl, rfl, rfl, rfl⟩ := h1
   obtain ⟨rfl, rfl⟩ := h
   simp
+
+/-- **The integer and boolean fields of every observation lie in the declared space**, with the
+declared shapes: in every state an episode exposes (reset, then any agent actions), whenever the
+factory returns, `job_running`, `available_jobs`, `job_executed_on_machine`, `machine_running` have
+the declared shapes, and `job_progression` / `machine_progression` have the declared shapes and stay
+within `[0, max_ops_per_job]` / `[0, max_ops_per_machine]`. -/
+theorem c14_observation_integer_fields_in_space {s0 σ : State} (hst : Start orc inst s0)
+    (h : Exposed orc inst ec st s0 σ) {tmax : Int} {o : SimpleObs}
+    (ho : simpleObs inst.machines.length tmax σ = .ok o) :
+    o.intFieldsInSpaceB inst.jobs.length inst.machines.length (maxOpsPerJob inst) (maxOpsPerMachine inst) = true :=
+  simpleObs_int_fields_in_space (exposed_inv hst h).2.1.shape ho
+
+/-- **The whole observation lies in the declared space** as long as the clock has not passed the
+normalisation constant (`0 ≤ time ≤ max_allowed_time`); beyond it `current_time` exceeds 1 – the
+recorded finding of C14. -/
+theorem c14_observation_in_space {s0 σ : State} (hst : Start orc inst s0)
+    (h : Exposed orc inst ec st s0 σ) {tmax : Int} {o : SimpleObs}
+    (ho : simpleObs inst.machines.length tmax σ = .ok o) (h0 : 0 ≤ σ.time) (h1 : σ.time ≤ tmax) :
+    o.inSpaceB inst.jobs.length inst.machines.length (maxOpsPerJob inst) (maxOpsPerMachine inst) = true :=
+  simpleObs_in_space (exposed_inv hst h).1 (exposed_inv hst h).2.1.shape ho h0 h1
+
+/-- past the normalisation constant the observation leaves the space (witness of the finding) -/
+theorem c14_current_time_leaves_space : ∃ (s : State) (o : SimpleObs), simpleObs 0 5 s = .ok o ∧ o.timeInSpaceB = false :=
+by
+  refine ⟨{ jobs := [], time := 6, machines := [], transports := [], buffers := [] },
+    { jobRunning := [], jobExecutedOnMachine := [], jobProgression := [], machineRunning := [],
+      machineProgression := [], availableJobs := [], currentTime := 6 / 5 }, ?_, by decide +kernel⟩
+  simp [simpleObs, sortById, List.mergeSort_nil, List.mapM_nil, List.foldlM_nil]
 
 end JSL
